@@ -1,8 +1,301 @@
-/- Driver for C05 (stub). -/
-import ControlModel.Basic
+/- Driver for C05: line = "input<TAB>implObs"; formats in harness/props/c05/c05.go. -/
+import ControlModel.Model.Placement
+import ControlModel.Spec.C05
 
 namespace Driver.C05
+open Placement
 
-def processLine (_line : String) : String := "UNIMPLEMENTED\t0\t-"
+/-! ### parsing -/
+
+def parseAttrs : SExp → Option Attrs
+  | .atom _ => some []                       -- nil
+  | .list xs => xs.mapM? fun
+    | .list [.atom n, .atom v] => some (n, v)
+    | .list [.atom n] => some (n, "")        -- non-text attribute reads as ""
+    | _ => none
+
+def parseCts (s : SExp) : Option Constraints := do
+  (← s.list?).mapM? fun
+    | .list [.atom a, .atom v, op] => do pure ⟨a, v, ← op.nat?⟩
+    | _ => none
+
+def parseRangesSx (s : SExp) : Option Ranges := do
+  (← s.list?).mapM? fun
+    | .list [b, e] => do pure (← b.nat?, ← e.nat?)
+    | _ => none
+
+def parseOptNat : SExp → Option (Option Nat)
+  | .atom "-" => some none
+  | s => s.nat?.map some
+
+def parseOptRanges : SExp → Option (Option Ranges)
+  | .atom "-" => some none
+  | s => (parseRangesSx s).map some
+
+def parseRes : SExp → Option Res
+  | .list [c, m, p] => do pure { cpu := ← parseOptNat c, mem := ← parseOptNat m, ports := ← parseOptRanges p }
+  | _ => none
+
+def parseInb (s : SExp) : Option (List Bool) := do (← s.list?).mapM? SExp.bool?
+
+def parseWants : SExp → Option Wants
+  | .list [c, m, st, inb] => do
+      pure { cpu := ← c.nat?, mem := ← m.nat?, static := ← parseRangesSx st, inbound := ← parseInb inb }
+  | _ => none
+
+def parseClass : SExp → Option Class
+  | .list [cts, c, m, .atom e, inb] => do
+      pure { cts := ← parseCts cts, cpu := ← c.nat?, mem := ← m.nat?, portsExpr := e.toList, inbound := ← parseInb inb }
+  | _ => none
+
+def parseMode (s r : String) : Mode := { satFixed := s != "c", rngFixed := r != "c" }
+
+/-! ### printing (must equal the Go side character for character) -/
+
+def ctsSx (cts : Constraints) : SExp :=
+  .list (cts.map fun c => .list [.atom c.attr, .atom c.value, SExp.ofNat c.op])
+
+def rangesSx (rs : Ranges) : SExp := .list (rs.map fun r => .list [SExp.ofNat r.1, SExp.ofNat r.2])
+
+def optRangesSx : Option Ranges → SExp
+  | none => .atom "-"
+  | some rs => rangesSx rs
+
+/-- `resources.Ports(...)` of what is left: sorted and squashed. -/
+def remainingSx (p : Option Ranges) : SExp := optRangesSx (p.map normalize)
+
+def taskFields (t : Task) : List SExp :=
+  [.list (t.dyn.map SExp.ofNat), SExp.ofNat t.ctrl, SExp.ofNat t.cpu, SExp.ofNat t.mem, rangesSx t.request]
+
+def outcomeSx (out : Outcome) : SExp :=
+  if out.crashed then .list [.atom "crash"] else
+  let accs := out.accepts.mergeSort (fun a b => a.oid ≤ b.oid)
+  .list [.atom "round",
+    .list (accs.map fun a => .list ([.atom "A", SExp.ofNat a.oid] ++
+      a.launches.map fun l => .list (SExp.ofNat l.desc.id :: taskFields l.task))),
+    .list (.atom "D" :: (out.declined.mergeSort (· ≤ ·)).map SExp.ofNat),
+    .list (.atom "U" :: out.undeployed.map fun d => SExp.ofNat d.id),
+    .list (.atom "X" :: out.undeployable.map fun d => SExp.ofNat d.id)]
+
+/-! ### reading back what the implementation did -/
+
+def parseTaskFields (static : Ranges) : List SExp → Option Task
+  | [dyn, ctrl, cpu, mem, _req] => do
+      pure { dyn := ← (← dyn.list?).mapM? SExp.nat?, ctrl := ← ctrl.nat?, cpu := ← cpu.nat?, mem := ← mem.nat?, static := static }
+  | _ => none
+
+def reqOf : List SExp → Option Ranges
+  | [_, _, _, _, req] => parseRangesSx req
+  | _ => none
+
+/-- The static part of what the implementation requested = requested ranges
+    minus drawn ports, compared as sets with the template's ranges. The
+    observation does not list the static ranges separately, so the task is
+    rebuilt with the static ranges the MODEL derives and its `request` is
+    compared with the observed one. -/
+def implTask (m : Mode) (c : Class) (fs : List SExp) : Option Task := do
+  let t ← parseTaskFields (c.wants m).static fs
+  let req ← reqOf fs
+  if t.request = req then pure t else
+    -- requested ranges differ from static ∪ drawn: record them all as static so every claim is counted
+    pure { t with static := req }
+
+partial def perms {α} : List α → List (List α)
+  | [] => [[]]
+  | xs => (List.range xs.length).flatMap fun i =>
+      match xs[i]? with
+      | some x => (perms (xs.eraseIdx i)).map (x :: ·)
+      | none => []
+
+/-! ### the cases -/
+
+structure Ans where
+  model : String
+  spec : Bool
+  hyp : String := "-"
+
+def wrapObs (s r : String) (p : SExp) : String := toString (SExp.list [.atom s, .atom r, p])
+
+def bad : Ans := { model := "BADINPUT", spec := false }
+
+def doSat (m : Mode) (w : SExp → String) (as cts : SExp) (impl : SExp) : Ans :=
+  match parseAttrs as, parseCts cts, impl.bool? with
+  | some a, some c, some ans =>
+    let spec := specSat a c ans
+    let hyp := if !spec && !m.satFixed && satisfyAsCoded a c != satisfy a c then "satisfy_last_constraint_decides" else "-"
+    { model := w (SExp.ofBool (m.sat a c)), spec, hyp }
+  | some a, some c, none => { model := w (SExp.ofBool (m.sat a c)), spec := false }
+  | _, _, _ => bad
+
+def doMerge (w : SExp → String) (ch pa : SExp) (impl : SExp) : Ans :=
+  match parseCts ch, parseCts pa with
+  | some c, some p =>
+    { model := w (ctsSx (mergeParent c p)), spec := match parseCts impl with
+        | some got => specMerge c p got
+        | none => false }
+  | _, _ => bad
+
+def doEff (w : SExp → String) (levels cls : SExp) (impl : SExp) : Ans :=
+  match levels.list? >>= (·.mapM? parseCts) with
+  | some chain =>
+    let clsC : Option (Option Constraints) := match cls with
+      | .atom _ => some none
+      | s => (parseCts s).map some
+    match clsC with
+    | some cc =>
+      let role := effective chain
+      let desc := descriptorConstraints role cc
+      let spec := match impl with
+        | .list [r, d] =>
+          match parseCts r, parseCts d with
+          | some gr, some gd =>
+            specEffective chain gr &&
+            (match cc with
+             | some k => specMerge gr k gd
+             | none => gd = gr)
+          | _, _ => false
+        | _ => false
+      { model := w (.list [ctsSx role, ctsSx desc]), spec }
+    | none => bad
+  | none => bad
+
+def doRes (w : SExp → String) (r wn : SExp) (impl : SExp) : Ans :=
+  match parseRes r, parseWants wn with
+  | some r, some wn =>
+    { model := w (SExp.ofBool (resSatisfy r wn)), spec := match impl.bool? with
+        | some ans => specRes r wn ans
+        | none => false }
+  | _, _ => bad
+
+def parseObsSx : Option Ranges → SExp
+  | none => .atom "err"
+  | some rs => .list (.atom "ok" :: rs.map fun r => .list [SExp.ofNat r.1, SExp.ofNat r.2])
+
+def doParse (m : Mode) (w : SExp → String) (e : String) (impl : SExp) : Ans :=
+  let mine := parseRanges m.rngFixed e.toList
+  let want := parseRanges true e.toList
+  let spec := impl == parseObsSx want
+  let hyp := if !spec && !m.rngFixed && parseRanges false e.toList != want then "range_end_from_start" else "-"
+  { model := w (parseObsSx mine), spec, hyp }
+
+def doMk (m : Mode) (w : SExp → String) (ports cls : SExp) (impl : SExp) : Ans :=
+  match parseOptRanges ports, parseClass cls with
+  | some ps, some c =>
+    let wn := c.wants m
+    let model : SExp := match makeTask wn ps with
+      | .early p => .list [.atom "nil", remainingSx p, SExp.ofBool true]
+      | .late p => .list [.atom "nil", remainingSx p, SExp.ofBool false]
+      | .panic => .list [.atom "panic"]
+      | .ok t p => .list ([.atom "ok"] ++ taskFields t ++ [remainingSx p, SExp.ofBool false])
+    let offerRes : Res := { cpu := some 400, mem := some 400000, ports := ps }
+    let wantsAsWritten : Wants := { wn with static := (parseRanges true c.portsExpr).getD [] }
+    let accepted := covers offerRes wantsAsWritten
+    let (v, implPanicked) : MkVerdict × Bool := match impl with
+      | .list (.atom "ok" :: fs) =>
+        match implTask m c (fs.take 5) with
+        | some t =>
+          let v := mkVerdict ps c (some t) false
+          ({ v with claims := v.claims || !accepted }, false)
+        | none => ({ noCrash := false, templateOk := false, drawn := false, claims := false }, false)
+      | .list (.atom "nil" :: _) => (mkVerdict ps c none false, false)
+      | _ => (mkVerdict ps c none true, true)
+    let spec := v.noCrash && v.templateOk && v.drawn && v.claims
+    let hyp :=
+      if spec then "-"
+      else if !v.noCrash then "port_draw_panics"
+      else if !v.templateOk then
+        (if !m.rngFixed && parseRanges false c.portsExpr != parseRanges true c.portsExpr then "range_end_from_start" else "-")
+      else if !v.drawn then "-"
+      else "static_ports_not_reserved"
+    { model := w model, spec := spec && !implPanicked, hyp }
+  | _, _ => bad
+
+def parseOffers (s : SExp) : Option (List Offer) := do
+  let xs ← s.list?
+  let os ← xs.mapM? fun
+    | .list [as, r] => do pure (← parseAttrs as, ← parseRes r)
+    | _ => none
+  pure ((List.range os.length).zip os |>.map fun (i, (a, r)) => { oid := i, attrs := a, res := r })
+
+def parseDescs (classes : List Class) (root : Constraints) (s : SExp) : Option (List Desc) := do
+  let xs ← s.list?
+  let ds ← xs.mapM? fun
+    | .list [lv, ci] => do
+        let chain ← (← lv.list?).mapM? parseCts
+        let cls : Option Class ← match ci with
+          | .atom "-" => some none
+          | c => do let i ← c.nat?; pure (some (← classes[i]?))
+        pure (effective (chain ++ [root]), cls)
+    | _ => none
+  pure ((List.range ds.length).zip ds |>.map fun (i, (r, c)) => { id := i, role := r, cls := c })
+
+/-- Rebuild an `Outcome` from the implementation's observation. -/
+def implOutcome (m : Mode) (descs : List Desc) : SExp → Option Outcome
+  | .list [.atom "crash"] => some { accepts := [], declined := [], undeployed := [], undeployable := [], crashed := true }
+  | .list [.atom "round", .list accs, .list (.atom "D" :: ds), .list (.atom "U" :: us), .list (.atom "X" :: xs)] => do
+    let getD (s : SExp) : Option Desc := do let i ← s.nat?; descs[i]?
+    let accepts ← accs.mapM? fun
+      | .list (.atom "A" :: o :: ts) => do
+          let ls ← ts.mapM? fun
+            | .list (d :: fs) => do
+                let d ← getD d
+                let c ← d.cls
+                pure (⟨d, ← implTask m c fs⟩ : Launch)
+            | _ => none
+          pure (⟨← o.nat?, ls⟩ : Accept)
+      | _ => none
+    pure { accepts, declined := ← ds.mapM? SExp.nat?, undeployed := ← us.mapM? getD, undeployable := ← xs.mapM? getD, crashed := false }
+  | _ => none
+
+def classDiffers (c : Class) : Bool := parseRanges false c.portsExpr != parseRanges true c.portsExpr
+
+def doRound (m : Mode) (w : SExp → String) (cls root offers descs : SExp) (impl : SExp) : Ans :=
+  match cls.list? >>= (·.mapM? parseClass), parseCts root, parseOffers offers with
+  | some classes, some rootC, some os =>
+    match parseDescs classes rootC descs with
+    | some ds =>
+      let implStr := w impl
+      let cands := (perms os).map fun order => w (outcomeSx (round m os ds order))
+      let model := if cands.contains implStr then implStr else cands.headD "NONE"
+      match implOutcome m ds impl with
+      | none => { model, spec := false }
+      | some out =>
+        let v := roundVerdict os out
+        let launchedDiffer := out.accepts.any fun a => a.launches.any fun l => match l.desc.cls with
+          | some c => classDiffers c
+          | none => false
+        let hyp :=
+          if v.all then "-"
+          else if !v.noCrash then "port_draw_panics"
+          else if !v.constraintsOk then (if m.satFixed then "-" else "satisfy_last_constraint_decides")
+          else if !v.templateOk then (if !m.rngFixed && launchedDiffer then "range_end_from_start" else "-")
+          else if !v.drawn then "-"
+          else if !v.declines then "-"
+          else if !v.sums then "cpu_mem_not_subtracted"
+          else "static_ports_not_reserved"
+        { model, spec := v.all, hyp }
+    | none => bad
+  | _, _, _ => bad
+
+def processLine (line : String) : String :=
+  let ans : Ans :=
+    match SExp.fields line with
+    | [inp, impl] =>
+      match SExp.parse inp, SExp.parse impl with
+      | some (.list (.atom kind :: args)), some (.list [.atom s, .atom r, payload]) =>
+        let m := parseMode s r
+        let w := wrapObs s r
+        match kind, args with
+        | "sat", [as, cts] => doSat m w as cts payload
+        | "merge", [c, p] => doMerge w c p payload
+        | "eff", [lv, cls] => doEff w lv cls payload
+        | "res", [r, wn] => doRes w r wn payload
+        | "parse", [.atom e] => doParse m w e payload
+        | "mk", [p, c] => doMk m w p c payload
+        | "round", [cls, root, os, ds] => doRound m w cls root os ds payload
+        | _, _ => bad
+      | _, _ => bad
+    | _ => { model := "BADLINE", spec := false }
+  s!"{ans.model}\t{if ans.spec then 1 else 0}\t{ans.hyp}"
 
 end Driver.C05
